@@ -101,7 +101,12 @@ def run(chk):
                 rg = E.run_entry(lib, lead, name, {'fast': False, 'sink': sink, 'shape_ok': True, 'qshape_ok': True})
                 key = 'fast-vs-general-%dd-%s-%s' % (lead, name, sink)
                 if rf is not None and rg is not None and 'unsupported' in (rf.outcome, rg.outcome):
-                    continue        # outside the reviewed entry-point surface: reported by C09 / C14
+                    # outside the reviewed entry-point surface: the agreement of the two paths cannot be decided -> fail closed (round 8: a contiguous-query shortcut
+                    # walking `as_slice_memory_order` inside the fast path was left to C09/C13 alone)
+                    bad = rf if rf.outcome == 'unsupported' else rg
+                    chk.ob('R19.5', "%s: the %s path stays within the reviewed entry-point surface (%s)" % (key, 'fast' if bad is rf else 'general', bad.exc),
+                           False, (bad.exc.where if bad.exc is not None and hasattr(bad.exc, 'where') else ''), key + '-unrecognised')
+                    continue
                 if rf is None or rg is None or rf.outcome != 'return' or rg.outcome != 'return':
                     chk.ob('R19.5', "%s: both paths evaluate (fast: %s %s, general: %s %s)" % (key, rf and rf.outcome, rf and rf.exc, rg and rg.outcome, rg and rg.exc),
                            False, (rf.exc.where if rf is not None and rf.exc else ''), key + '-evaluates')
